@@ -187,7 +187,17 @@ std::string applyEdit(std::string doc, Src &src, Case &c)
         static const std::vector<std::string> ns = {"http://www.cellml.org/cellml/2.0#", "http://www.cellml.org/cellml/1.1#", "http://www.cellml.org/cellml/1.0#", "http://www.w3.org/1998/Math/MathML", "http://www.w3.org/1999/xlink", "urn:foreign", ""};
         std::string from = src.pick(ns), to = src.pick(ns);
         auto occ = findAll(doc, "\"" + from + "\"");
-        if (!from.empty() && !occ.empty()) {
+        if (!from.empty() && from == to && !occ.empty()) {
+            // the same namespace bound a second (and third) time, under other prefixes, by adjacent declarations
+            size_t p = src.pick(occ);
+            size_t e = p + from.size() + 2;
+            std::string extra = " xmlns:dup1=\"" + from + "\"";
+            if (src.flip(40)) {
+                extra += " xmlns:dup2=\"" + from + "\"";
+            }
+            doc.insert(e, extra);
+            c.cls("edit:namespace-bound-twice");
+        } else if (!from.empty() && !occ.empty()) {
             size_t p = src.pick(occ);
             doc.replace(p + 1, from.size(), to);
             c.cls("edit:namespace");
